@@ -293,7 +293,19 @@ type fixed struct {
 // fixedHistories are small hand-written histories that every run starts with.
 func fixedHistories() []fixed {
 	o := func(k string, h uint64, e int) Op { return Op{K: k, H: h, E: e} }
+	// one batch larger than a 32 KiB block of Pebble's record format (first / middle / last chunks),
+	// after a small one; crash in the middle of writing it, restart, and write another big one
+	big := []Op{{K: "open"}, o("set", 1, 1), {K: "flush"}}
+	for i := 0; i < 900; i++ {
+		big = append(big, o("set", uint64(2+i%3), 10+i))
+	}
+	big = append(big, o("del", 1, 0), Op{K: "flush"}, Op{K: "close"}, Op{K: "open"})
+	for i := 0; i < 700; i++ {
+		big = append(big, o("set", uint64(4+i%2), 2000+i))
+	}
+	big = append(big, Op{K: "crash", C: "flush", I: 3, T: &tailVariant{Kind: "cut", Off: 32768 - 11}}, Op{K: "open"}, o("set", 9, 5000), Op{K: "flush"})
 	return []fixed{
+		{"fixed-bigbatch", big},
 		{"fixed-basic", []Op{{K: "open"}, o("set", 1, 1), o("set", 1, 2), o("set", 2, 3), {K: "flush"}, o("set", 2, 4), o("del", 1, 0),
 			{K: "flush"}, o("set", 3, 5), {K: "close"}, {K: "open"}, o("set", 3, 6), {K: "flush"}, {K: "crash", C: "idle"}, {K: "open"}}},
 		// a prune and a lower entry in one batch; a prune merged into an earlier pending prune
